@@ -48,7 +48,7 @@ struct EncResult {
     std::vector<uint8_t> out;
     std::vector<Frame> frames;
     std::vector<FlushPoint> flushes;   // points where a flush directive returned 0
-    unsigned calls = 0, out_full = 0, mid_flush = 0, tiny_in = 0, tiny_out = 0;
+    unsigned calls = 0, out_full = 0, mid_flush = 0, tiny_in = 0, tiny_out = 0, abandoned = 0;
     bool magicless = false;
     int nbWorkers = 0;
     std::vector<uint8_t> all() const { std::vector<uint8_t> v; for (auto& f : frames) v.insert(v.end(), f.x.begin(), f.x.end()); return v; }
@@ -61,10 +61,11 @@ struct EncOpts {
     bool allow_multi_frame = true;
     bool allow_skippable = true;
     bool allow_magicless = true;
+    bool allow_abandon = true;
     int force_flavor = -1;
     unsigned flush_weight = 1;     // C10 raises this
     bool pledge = true;
-    unsigned max_calls = 200000;
+    unsigned max_calls = 60000;
 };
 
 inline bool is_clean_refusal(size_t code) {
@@ -138,6 +139,7 @@ inline void encode_frame(vf::Ctx& c, ZSTD_CCtx* cctx, const EncOpts& eo, int fla
     }
     size_t inSize = 0;  // stableIn: currently exposed size
     bool done = false;
+    size_t end_bytes = 0;
     bool ending = false;  // zstd.h: once an end directive returned >0 it is repeated until it returns 0
     unsigned stall = 0;
     while (!done) {
@@ -244,6 +246,12 @@ inline void encode_frame(vf::Ctx& c, ZSTD_CCtx* cctx, const EncOpts& eo, int fla
             if (consumed < x.size()) res.mid_flush++;
             res.flushes.push_back({res.out.size(), fr.dBegin + consumed, res.frames.size()});
         }
+        if (ending) {
+            // once the end directive is in force everything still owed is the buffered remainder, the last block and the
+            // checksum: more output than compressBound(whole input)+slack means the call-until-0 loop never converges
+            end_bytes += made;
+            VF_CHECK(c, end_bytes <= ZSTD_compressBound(x.size()) + 4096, "end directive has produced %zu bytes for a %zu-byte frame and still returns %zu: it does not converge", end_bytes, x.size(), r);
+        }
         if (dir == ZSTD_e_end) ending = true;
         if (dir == ZSTD_e_end && r == 0) {
             VF_CHECK(c, consumed == x.size(), "end directive completed with %zu of %zu bytes consumed", consumed, x.size());
@@ -311,6 +319,29 @@ inline EncResult gen_stream(vf::Ctx& c, ZSTD_CCtx* cctx, const EncOpts& eo) {
         size_t wl = (size_t)ps.get(ZSTD_c_windowLog, 0);
         gen::ContentInfo ci;
         std::vector<uint8_t> x = gen::gen_content(t, maxsz, &ci, wl ? (size_t)1 << wl : 0);
+        if (eo.allow_abandon && (flavor == F_CS2 || flavor == F_SIMPLE || flavor == F_LEGACY) && !x.empty() && t.chance(20)) {
+            // an abandoned frame first: a few calls with a starved output so that compressed bytes stay held inside the
+            // context, then a session reset; its output is thrown away. The real frame must not notice.
+            if (flavor == F_LEGACY) ZSTD_initCStream(cctx, lvl);
+            size_t pos = 0; unsigned ncalls = (unsigned)t.range(1, 6);
+            bool held = false;
+            for (unsigned i = 0; i < ncalls; i++) {
+                size_t n = std::min(x.size() - pos, gen_chunk(t));
+                size_t cap = (size_t)t.range(0, 40);
+                vf::Buf ob(cap);
+                ZSTD_inBuffer in = {x.data() + pos, n, 0};
+                ZSTD_outBuffer out = {ob.p, cap, 0};
+                size_t r = ZSTD_compressStream2(cctx, &out, &in, t.flip() ? ZSTD_e_flush : ZSTD_e_continue);
+                if (ZSTD_isError(r)) break;
+                if (r > 0) held = true;
+                pos += in.pos;
+            }
+            size_t rr = ZSTD_CCtx_reset(cctx, ZSTD_reset_session_only);
+            VF_CHECK(c, !ZSTD_isError(rr), "session reset of an abandoned frame failed: %s", ZSTD_getErrorName(rr));
+            c.label(held ? "abandoned_frame_with_held_output" : "abandoned_frame");
+            c.note("[abandoned %zu bytes] ", pos);
+            res.abandoned++;
+        }
         c.note("frame%u{%s %s %s} ", fi, flavor_name[flavor], ps.str().c_str(), ci.summary().c_str());
         c.label(std::string("enc_flavor:") + flavor_name[flavor]);
         encode_frame(c, cctx, eo, flavor, ps, x, res);
